@@ -239,16 +239,18 @@ pub fn run(a: &Args) {
             let _ = cache.load::<String>("a");
             cache.hot_reload();
             drop(cache);
-            // activity after the drop: this is what tells the watcher that nobody listens any more
+            // activity after the drop: this is what tells the watcher that nobody listens any more;
+            // for every other cache only files that name no asset change (two dots in the name)
             for j in 0..5 {
-                std::fs::write(d.join("a.txt"), format!("{i}-{j}")).unwrap();
+                let f = if i % 2 == 0 { "a.txt" } else { "notes.v2.txt" };
+                std::fs::write(d.join(f), format!("{i}-{j}")).unwrap();
                 std::thread::sleep(Duration::from_millis(20));
             }
         }
         let mut left = count_notify().saturating_sub(base);
         let t0 = Instant::now();
         while left > 0 && t0.elapsed() < Duration::from_millis(2000) {
-            std::fs::write(d.join("a.txt"), "again").unwrap();
+            std::fs::write(d.join("notes.v2.txt"), "again").unwrap();
             std::thread::sleep(Duration::from_millis(50));
             left = count_notify().saturating_sub(base);
         }
